@@ -12,8 +12,14 @@ Emits Rust source: for every case (macro x syntactic form x value-type vector)
 and a table of `Case` entries.  Only forms documented in tracing/src/lib.rs ("Using the
 Macros"), the macros' own doc comments, or exercised by tracing/tests/macros.rs are produced.
 
-usage: c10.py [--seed N] [--out DIR] [--random N]
-  seed 0 (default) is the committed corpus in checks/src/gen_c10/.
+usage: c10.py [--seed N] [--out DIR] [--random N] [--sigil-types-display-only]
+  seed 0 (default) is the committed corpus in checks/src/gen_c10/ (the build never needs
+  python); the thorough tier of the check generates a second corpus with --seed 1+VERIF_SEED
+  --random 700 into evidence/tmp/c10x and compiles it into a throw-away crate.
+  --sigil-types-display-only is for mutant runs that swap the `%` / `?` arms of valueset!.
+Sections of the plan: S1 value kinds x macros, S2 sigils / shorthands, S3 messages,
+S4 prefixes, S5 Empty + later record / undeclared / foreign fields / record_all!,
+S6 enabled!, S7 seeded random combinations (incl. 32 fields), S8 every valueset! arm.
 """
 import argparse
 import os
